@@ -486,7 +486,11 @@ def selftest():
     ok = True
     if base != on_disk:
         ok = False
-        notes.append("unchanged source does not reproduce lean/%s byte for byte" % GEN_REL)
+        notes.append("the source does not reproduce lean/%s byte for byte" % GEN_REL)
+    good = committed_text()
+    if good is not None and base != good:
+        # an edited copy of the repo: the src_*_is_model theorems speak about it; the edits below are anchored in the pristine text
+        return ok, "source under test translates to a text different from the committed lean/%s: self-test of the edits skipped" % GEN_REL
     for name, old, new in EDITS:
         if text.count(old) != 1:
             ok = False
